@@ -76,6 +76,14 @@ def iter_source(E, it, st):
             sq = SeqT(v.ty.items[0]); sv = E.coerce(v, sq, s1)
             yield s1, "seq", (sq, sv.v, "plain"); continue
         ct = E.content_type(v) if v.ty.sort == Ref else None
+        if isinstance(v.ty, RefT) and v.ty.cls == "CustomChainMap":
+            # CustomChainMap.__iter__ (trusted model of its 4 lines): every key of the union of the maps, once
+            maps = E.get_field(s1, v, "maps"); sq, mv = E.seq_of(s1, maps)
+            dt = sq.elem
+            k = E.fresh("k", dt.k.sort); j = E.fresh("j", I); U = E.fresh("chainkeys", z3.ArraySort(dt.k.sort, B))
+            doms = s1.H(dt.dom_region, z3.ArraySort(dt.k.sort, B))
+            s1.pc.append(z3.ForAll([k], U[k] == z3.Exists([j], z3.And(0 <= j, j < sq.len(mv), doms[sq.arr(mv)[j]][k]))))
+            yield s1, "set", (dt.k, U, None); continue
         if isinstance(v.ty, SeqT) or isinstance(ct, ListT) or (isinstance(ct, DictT) and ct.ordered):
             sq, sv = E.seq_of(s1, v); yield s1, "seq", (sq, sv, "plain")
         elif isinstance(ct, (SetT, DictT, GraphT)):
@@ -198,7 +206,7 @@ def run_loop(E, n, st, k, sp, names, kind, pl):
 
 
 # ---------------------------------------------------------------------------------------------- comprehensions
-def pure_eval(E, node, st, binds, guards=()):
+def pure_eval(E, node, st, binds, guards=(), qvars=None):
     """Evaluate a side-effect-free expression with extra bound names; must stay on a single normal path and leave
     the heap untouched; every exceptional outcome becomes the obligation that it is infeasible.
     Returns (SV, facts) where facts are the hypotheses added while evaluating."""
@@ -206,22 +214,67 @@ def pure_eval(E, node, st, binds, guards=()):
     s.loc = dict(s.loc); s.loc.update(binds)
     s.pc.extend(guards)
     n0 = len(s.pc); heap0 = dict(s.heap)
-    outs = list(E.ev(node, s))
+    if qvars is None:
+        # the variables the bound names range over (the facts are later quantified over them)
+        qvars = []
+        for b in binds.values():
+            for t in _free_consts(b.v):
+                if not any(t.eq(q) for q in qvars): qvars.append(t)
+        qvars = [q for q in qvars if q.decl().name().split("!")[0] in ("ci", "cx", "ai", "ax", "ni", "nx")]
+    saved_log = E._fresh_log; E._fresh_log = log = []
+    try:
+        outs = list(E.ev(node, s))
+    finally:
+        E._fresh_log = saved_log
+        if saved_log is not None: saved_log.extend(log)
     normal = [(a, b) for a, b in outs if not isinstance(b, Exc)]
     for a, b in outs:
         if isinstance(b, Exc):
             E.oblige(a, "comprehension-safe", "L%d:%s" % (node.lineno - E.base_line, b.tag), z3.BoolVal(False), node.lineno,
                      "element/condition of the comprehension cannot raise %s" % b.tag)
-    if len(normal) != 1:
-        raise Unsupported("comprehension element/condition forks (line %s)" % node.lineno)
-    s1, v = normal[0]
-    for r in set(s1.heap) | set(heap0):
-        if r == "alloc": continue
-        if r not in heap0 or r not in s1.heap or not heap0[r].eq(s1.heap[r]):
+    if not normal:
+        raise Unsupported("comprehension element/condition has no normal outcome (line %s)" % node.lineno)
+    for s1, v in normal:
+        for r in set(s1.heap) | set(heap0):
+            if r == "alloc": continue
+            if r in s1.heap and r not in heap0: continue        # region first read here
             if not (r in heap0 and r in s1.heap and heap0[r].eq(s1.heap[r])):
-                if r in s1.heap and r not in heap0: continue        # region first read here
                 raise Unsupported("comprehension with heap effects")
-    return v, s1.pc[n0:]
+    if len(normal) > 1:
+        # short-circuit forks (a and b(), ...): the outcomes are merged into one value; each path's hypotheses hold only on it
+        if len({v.ty.sort for _, v in normal}) != 1: raise Unsupported("comprehension element forks into different types (line %s)" % node.lineno)
+        conds = [z3.And(*a.pc[n0:]) if len(a.pc) > n0 else z3.BoolVal(True) for a, _ in normal]
+        val = normal[-1][1].v
+        for cnd, (_, vv) in zip(reversed(conds[:-1]), reversed(normal[:-1])):
+            val = z3.If(cnd, vv.v, val)
+        s1 = normal[0][0].copy(); del s1.pc[n0:]; s1.pc.append(z3.Or(*conds))
+        v = SV(val, normal[0][1].ty)
+    else:
+        s1, v = normal[0]
+    facts = s1.pc[n0:]
+    if qvars and log:
+        # values created while evaluating the element (call results, ...) depend on the bound variable: skolem functions of it
+        used = set()
+        for f in facts + [v.v]:
+            used |= {t.decl().name() for t in _free_consts(f)}
+        subs = [(c, z3.Function(c.decl().name() + "!sk", *([q.sort() for q in qvars] + [c.sort()]))(*qvars)) for c in log if c.decl().name() in used]
+        if subs:
+            v2 = SV(z3.substitute(v.v, *subs), v.ty); v2.py = v.py; v = v2
+            facts = [z3.substitute(f, *subs) for f in facts]
+    return v, facts
+
+
+def _free_consts(t, _seen=None):
+    out, seen, todo = [], set(), [t]
+    while todo:
+        x = todo.pop()
+        if x.get_id() in seen: continue
+        seen.add(x.get_id())
+        if z3.is_quantifier(x): todo.append(x.body()); continue
+        if z3.is_app(x):
+            if x.num_args() == 0 and x.decl().kind() == z3.Z3_OP_UNINTERPRETED: out.append(x)
+            todo.extend(x.children())
+    return out
 
 
 def comp_parts(E, n, st):
@@ -274,9 +327,28 @@ def list_comp(E, n, st):
         sq, v, _ = pl
         i = E.fresh("ci", I)
         binds = bind_target(E, g.target, SV(sq.arr(v)[i], sq.elem), s1)
-        ev, facts = pure_eval(E, n.elt, s1, binds)
         if g.ifs:
-            raise Unsupported("filtered comprehension over a sequence (line %s)" % n.lineno)
+            # [f(x) for x in seq if c(x)]: the selected elements in order -- a strictly increasing index map `src` from the
+            # result into seq, onto the selected positions (`inv` its inverse)
+            conds, facts = [], []
+            for c in g.ifs:
+                cv, f = pure_eval(E, c, s1, binds, [z3.And(0 <= i, i < sq.len(v))] + conds); conds.append(E.truth(cv, s1)); facts += f
+            ev, f = pure_eval(E, n.elt, s1, binds, [z3.And(0 <= i, i < sq.len(v))] + conds); facts += f
+            sel = z3.And(*conds)
+            src = z3.Function("filt_src!%d" % E._n, I, I); inv = z3.Function("filt_inv!%d" % E._n, I, I); E._n += 1
+            res = E.fresh("filtcomp", z3.ArraySort(I, ev.ty.sort)); ln = E.fresh("filtlen", I)
+            a, b = E.fresh("a", I), E.fresh("b", I)
+            inr = z3.And(0 <= i, i < sq.len(v))
+            s1.pc.append(z3.And(0 <= ln, ln <= sq.len(v)))
+            if facts: s1.pc.append(z3.ForAll([i], z3.Implies(inr, z3.And(*facts))))
+            s1.pc.append(z3.ForAll([a], z3.Implies(z3.And(0 <= a, a < ln), z3.And(0 <= src(a), src(a) < sq.len(v), inv(src(a)) == a,
+                         z3.substitute(z3.And(sel, res[a] == ev.v), (i, src(a)))))))
+            s1.pc.append(z3.ForAll([a, b], z3.Implies(z3.And(0 <= a, a < b, b < ln), src(a) < src(b))))
+            s1.pc.append(z3.ForAll([i], z3.Implies(z3.And(inr, sel), z3.And(0 <= inv(i), inv(i) < ln, src(inv(i)) == i))))
+            r = E.alloc(s1, ListT(ev.ty), "comp")
+            E.set_seq(s1, r, SeqT(ev.ty).mk(ln, res))
+            yield s1, r; return
+        ev, facts = pure_eval(E, n.elt, s1, binds)
         res = E.fresh("comp", z3.ArraySort(I, ev.ty.sort))
         s1.pc.append(z3.ForAll([i], z3.Implies(z3.And(0 <= i, i < sq.len(v)), z3.And(*facts, res[i] == ev.v))))
         r = E.alloc(s1, ListT(ev.ty), "comp")
